@@ -30,8 +30,12 @@ def week (w : Week) : String :=
     s!"{hx d.key}:{sparse d.powers (· == 0) toString}:{sparse d.impacts (· == 0) toString}"))
   s!"tso={w.tso};" ++ joinWith ";" devs
 
+/-- Blank-slot test with a pointer-equality fast path (blank slots share the one `Report.zero` object). -/
+def isBlank (r : Report) : Bool :=
+  @decide (r = Report.zero) (withPtrEqDecEq r Report.zero (fun _ => inferInstance))
+
 def dev (id : Nat) (d : Srv.Dev) : String :=
-  s!"{id}:{hexOfBytes (Auth.encode d.auth)}:{sparse d.reports (· == Report.zero) (fun r => hexOfBytes (Report.encode r))}:{sparse d.impact (· == 0) toString}"
+  s!"{id}:{hexOfBytes (Auth.encode d.auth)}:{sparse d.reports isBlank (fun r => hexOfBytes (Report.encode r))}:{sparse d.impact (· == 0) toString}"
 
 def natSort (l : List Nat) : List Nat := (l.toArray.qsort (· < ·)).toList
 
